@@ -276,6 +276,14 @@ def finish(ctx: Ctx, b: BuildResult, spec: dict) -> int:
     if ctx.failures:
         violations = len(ctx.failures)
         f = ctx.failures[0]
+        try:  # shrink the failing request where the generic predicate applies (never affects the verdict)
+            import replay as _replay
+            rq = f["replay"].get("request") if isinstance(f["replay"], dict) else None
+            small = _replay.minimise(rq) if isinstance(rq, str) and len(rq) < 20000 else None
+            if small:
+                f["replay"]["minimised_request"] = small
+        except Exception:  # noqa: BLE001
+            pass
         path = write_replay(pid, "violation", dict(property=pid, kind="failing-input", what=f["what"], replay=f["replay"],
                                                    seed=ctx.seed, tier=ctx.tier))
         lines.append(f"VIOLATION property={pid} replay={path}")
